@@ -194,7 +194,7 @@ void {C_prefix}ShroudCopyArray({C_array_type} *data, \tvoid *c_var, \tsize_t c_v
 const void *cxx_var = data->addr.base;
 int n = c_var_size < data->size ? c_var_size : data->size;
 n *= data->elem_len;
-{stdlib}memcpy(c_var, cxx_var, n);
+if (n > 0) {stdlib}memcpy(c_var, cxx_var, n);
 {C_memory_dtor_function}(&data->cxx); // delete data->cxx.addr
 -}}{lend}""",
             fmt,
